@@ -62,7 +62,21 @@ def nd_svd(A, full_matrices=True, compute_uv=True, **kw):
 
 
 def nd_eig(A):
-    raise Unsupported("np.linalg.eig on proxies")
+    """np.linalg.eig: A P = P diag(lambda) (assumed contract; eigenvalues complex in general, P invertible when A is diagonalisable)"""
+    SymND = _nd()
+    if not isinstance(A, SymND) or A.nd != 2:
+        raise Unsupported("np.linalg.eig argument")
+    c = ctx()
+    if A.lazy:
+        c.events.append(("force", "np.linalg.eig has no dask implementation"))
+    k = A.term.rows
+    tag = fresh("eig")
+    lam = tm.sym(f"lam.{tag}", k, k, ("diag",))
+    P = tm.sym(f"P.{tag}", k, k, ())
+    c.hyps.append((tm.mul(A.term, P), tm.mul(P, lam), "np.linalg.eig: A P = P diag(lambda)"))
+    c.notes.setdefault("eig_calls", []).append({"A": A.term, "lam": lam, "P": P})
+    c.events.append(("call", {"callee": "np.linalg.eig"}))
+    return SymND(lam, 1, True, False), SymND(P, 2, True, False)
 
 
 def nd_norm(A, axis=None, **kw):
